@@ -85,8 +85,10 @@ func (r *RIBModule) register(interest *spec.Interest, pitToken []byte, inFace ui
 	}
 
 	faceID := inFace
+	faceGiven := false // the face was named in the command: it must exist
 	if params.FaceId != nil && *params.FaceId != 0 {
 		faceID = *params.FaceId
+		faceGiven = true
 		if face.FaceTable.Get(faceID) == nil {
 			response = makeControlResponse(410, "Face does not exist", nil)
 			r.manager.sendResponse(response, interest, pitToken, inFace)
@@ -121,13 +123,24 @@ func (r *RIBModule) register(interest *spec.Interest, pitToken []byte, inFace ui
 		*expirationPeriod = time.Duration(*params.ExpirationPeriod) * time.Millisecond
 	}
 
-	table.Rib.AddEncRoute(params.Name, &table.Route{
-		FaceID:           faceID,
-		Origin:           origin,
-		Cost:             cost,
-		Flags:            flags,
-		ExpirationPeriod: expirationPeriod,
-	})
+	addRoute := func() {
+		table.Rib.AddEncRoute(params.Name, &table.Route{
+			FaceID:           faceID,
+			Origin:           origin,
+			Cost:             cost,
+			Flags:            flags,
+			ExpirationPeriod: expirationPeriod,
+		})
+	}
+	if !faceGiven {
+		addRoute()
+	} else if !face.FaceTable.IfExists(faceID, addRoute) {
+		// The face was removed after the check above: its routes have been (or are being)
+		// cleaned up, a route added now would stay for ever
+		response = makeControlResponse(410, "Face does not exist", nil)
+		r.manager.sendResponse(response, interest, pitToken, inFace)
+		return
+	}
 	if expirationPeriod != nil {
 		core.LogInfo(r, "Created route for Prefix=", params.Name, ", FaceID=", faceID, ", Origin=", origin,
 			", Cost=", cost, ", Flags=0x", strconv.FormatUint(flags, 16), ", ExpirationPeriod=", expirationPeriod)
